@@ -21,7 +21,7 @@ pub mod sched {
     pub fn end() -> Run {
         RUN.with(|r| std::mem::take(&mut *r.borrow_mut()))
     }
-    pub(crate) fn choose(arity: u8) -> u8 {
+    pub fn choose(arity: u8) -> u8 {
         RUN.with(|r| {
             let mut r = r.borrow_mut();
             let c = if r.pos < r.script.len() { r.script[r.pos] } else { 0 };
@@ -46,6 +46,30 @@ pub mod sched {
             }
         })
     }
+}
+
+/// `rayon::join`: both closures run to completion; which one runs first is a scheduling decision
+/// (on real rayon `b` may be stolen and run concurrently with or before `a`).
+pub fn join<A, B, RA, RB>(a: A, b: B) -> (RA, RB)
+where
+    A: FnOnce() -> RA + Send,
+    B: FnOnce() -> RB + Send,
+    RA: Send,
+    RB: Send,
+{
+    if sched::choose(2) == 0 {
+        let ra = a();
+        let rb = b();
+        (ra, rb)
+    } else {
+        let rb = b();
+        let ra = a();
+        (ra, rb)
+    }
+}
+
+pub fn current_num_threads() -> usize {
+    4
 }
 
 pub mod iter {
